@@ -15,6 +15,7 @@ RULE = ("Pairs of disjoint trees built twice from one generated spec (all eight 
         "Non-trivial: unequal pairs whose difference lies outside the first-child chain; distinct (tree, difference) by hash.")
 RULE += ('  Trees that carry the same node ids (a tree and its JSON reload) are distinct trees and compare like any others.')
 RULE += ("  Difference kinds include 'prefix-alias': two prefixes bound to one URI in the node's map, the trees differing in that prefix only.")
+RULE += ('  Maps may hold a default namespace under the key None (as the XML importer files it): difference kinds default-ns-change / default-ns-rekey.')
 ASSUMPTIONS = [
     "only distinct trees are compared (is_equal answers False for the same object by design)",
     "attribute / extras / namespace dictionaries compare by content, not insertion order",
